@@ -254,8 +254,21 @@ def _int1d(a, b, xa, xb, la, lb):
     return tab, tabs
 
 
+def _terms(f):
+    ks = sorted(f.poly)
+    return np.array(ks, dtype=int).reshape(-1, 3), np.array([f.poly[k] for k in ks], dtype=float)
+
+
+SCREEN = 2e-15  # primitive pairs whose Gaussian prefactor is below this may legitimately be skipped
+
+
 def overlap_funcs(funcs0, atcoords0, funcs1=None, atcoords1=None, with_bound=False):
-    """Exact overlap matrix <f0_i | f1_j>; optionally the absolute-sum conditioning bound A_ij."""
+    """Exact overlap matrix <f0_i | f1_j>.
+
+    with_bound=True also returns A_ij (sum of absolute values of all contributions: the
+    conditioning bound) and T_ij (sum of absolute values of the contributions of primitive
+    pairs whose prefactor exp(-a b/(a+b) R^2) is below SCREEN: what screening may drop).
+    """
     atcoords0 = np.asarray(atcoords0, dtype=float)
     if funcs1 is None:
         funcs1, atcoords1 = funcs0, atcoords0
@@ -263,30 +276,42 @@ def overlap_funcs(funcs0, atcoords0, funcs1=None, atcoords1=None, with_bound=Fal
     n0, n1 = len(funcs0), len(funcs1)
     S = np.zeros((n0, n1))
     A = np.zeros((n0, n1))
+    T = np.zeros((n0, n1))
     cache = {}
+    terms0 = [_terms(f) for f in funcs0]
+    terms1 = terms0 if funcs1 is funcs0 else [_terms(g) for g in funcs1]
     for i, f in enumerate(funcs0):
         ra = atcoords0[f.icenter]
+        fa, fc = terms0[i]
         for j, g in enumerate(funcs1):
             rb = atcoords1[g.icenter]
+            ga, gc = terms1[j]
             key = (id(f.exps), id(g.exps), f.icenter, g.icenter, f.l, g.l)
             if key not in cache:
-                cache[key] = [_int1d(f.exps, g.exps, ra[ax], rb[ax], f.l, g.l) for ax in range(3)]
-            (tx, txa), (ty, tya), (tz, tza) = cache[key]
+                tabs = [_int1d(f.exps, g.exps, ra[ax], rb[ax], f.l, g.l) for ax in range(3)]
+                p = f.exps[:, None] + g.exps[None, :]
+                pref = np.exp(-f.exps[:, None] * g.exps[None, :] / p * ((ra - rb) ** 2).sum())
+                cache[key] = (tabs, pref < SCREEN)
+            ((tx, txa), (ty, tya), (tz, tza)), mask = cache[key]
             w = np.outer(f.dn, g.dn)
-            wa = np.abs(w)
-            tot = 0.0
-            tota = 0.0
-            for (a, b, c), cu in f.poly.items():
-                for (d, e, h), cv in g.poly.items():
-                    prim = tx[:, :, a, d] * ty[:, :, b, e] * tz[:, :, c, h]
-                    tot += cu * cv * (w * prim).sum()
-                    if with_bound:
-                        prima = txa[:, :, a, d] * tya[:, :, b, e] * tza[:, :, c, h]
-                        tota += abs(cu * cv) * (wa * prima).sum()
-            S[i, j] = f.sign * g.sign * tot
-            A[i, j] = tota
+            ix = (slice(None), slice(None))
+            prim = (
+                tx[ix + (fa[:, 0][:, None], ga[:, 0][None, :])]
+                * ty[ix + (fa[:, 1][:, None], ga[:, 1][None, :])]
+                * tz[ix + (fa[:, 2][:, None], ga[:, 2][None, :])]
+            )
+            S[i, j] = f.sign * g.sign * np.einsum("kl,klij,i,j->", w, prim, fc, gc)
+            if with_bound:
+                prima = (
+                    txa[ix + (fa[:, 0][:, None], ga[:, 0][None, :])]
+                    * tya[ix + (fa[:, 1][:, None], ga[:, 1][None, :])]
+                    * tza[ix + (fa[:, 2][:, None], ga[:, 2][None, :])]
+                )
+                per = np.einsum("klij,i,j->kl", prima, np.abs(fc), np.abs(gc)) * np.abs(w)
+                A[i, j] = per.sum()
+                T[i, j] = per[mask].sum()
     if with_bound:
-        return S, A
+        return S, A, T
     return S
 
 
